@@ -9,8 +9,11 @@ Spec: specs/msm/Trim.tla (+ TrimSample.tla for sampled scopes).  TLC
     NothingOnRemoved, MappingBijectiveMonotone, VariantsAgree, ContainerPreserved,
     Frozen), and
 (b) emits one CASE line per (C, threshold) with the SET of allowed kept sets and,
-    for each, the expected matrix and mapping of both variants plus the expected
-    container tag of every container.
+    for each, the expected matrix and mapping of both variants, plus one TAGS line
+    with the expected container tag of the result for every input container.
+    (CASE lines are printed as a plain TLA+ string `"CASE {json}"`; the raw lines
+    go to the replay workers, which decode them -- decoding 170 000 lines in the
+    parent process alone would take a quarter of the quick tier's budget.)
 The driver replays every CASE into the real trim_disconnected for
 {ndarray, csr_matrix, coo_matrix, lil_matrix} x renumber on/off and into
 MSM(lag_time=1, method=normalize, trim=True).fit on assignments realising C
@@ -34,7 +37,11 @@ INVS = ["TypeOK", "ThresholdOnlyDrops", "ComponentsAreSCCs", "WeightsFromOrigina
         "ContainerPreserved"]
 PROPS = ["Frozen"]
 ALL_CONTAINERS = ["ndarray", "csr_matrix", "coo_matrix", "lil_matrix"]
-GC = ("-XX:ParallelGCThreads=2",)
+# the thorough tier has up to 13 JVMs alive at once: keep each of them small (core's default is
+# -Xmx8g; the last -Xmx wins).  TLC keeps its queue on disk, 2-3 GB are ample for <= 5 M states.
+GC = ("-XX:ParallelGCThreads=2", "-Xmx2g")
+GC_BIG = ("-XX:ParallelGCThreads=2", "-Xmx3g")
+MAX_REPORTS_PER_KEY = 5
 ACTIONS = ["Threshold", "Components", "Weigh", "KeepAny", "Extract", "ZeroRows", "ZeroCols",
            "BuildMapping", "Wrap"]
 
@@ -191,7 +198,7 @@ def replay_case(c):
     # ---- MSM(trim=True).fit reports the same mapping / trimmed counts
     msm = "skipped"
     ref = next(((t, "ren") for t in ("coo_matrix", "ndarray") if (t, "ren") in chosen), None)
-    if thr == 1 and int(A.sum()) > 0 and ref is not None:
+    if thr == 1 and int(A.sum()) > 0:
         from enspara.msm import MSM, builders
         sel = int(A.sum()) + int(A[0].sum())
         form = "ragged" if sel % 2 else "ndarray"
@@ -213,22 +220,31 @@ def replay_case(c):
             except Exception as ex:
                 built = False
                 msm = "builder-raised-" + type(ex).__name__
-            exp = alts[chosen[ref]]["ren"]
             if hasattr(m, "mapping_"):
+                # judged against the emitted alternatives themselves (independently of the direct
+                # calls above) and, where the direct coo_matrix call was accepted, against its choice
                 got = {"orig": _pairs(m.mapping_.to_original), "mapped": _pairs(m.mapping_.to_mapped)}
-                if got["orig"] != exp["orig"] or got["mapped"] != exp["mapped"]:
-                    bad.append(("MSM.fit/mapping_", {"got": got, "expected": exp, "assignments": form,
-                                                     "max_n_states": max_n}))
+                cand = [k for k, a_ in enumerate(alts)
+                        if a_["ren"]["orig"] == got["orig"] and a_["ren"]["mapped"] == got["mapped"]]
+                how = {"assignments": form, "max_n_states": max_n}
+                if not cand:
+                    bad.append(("MSM.fit/mapping_", {"got": got, "allowed": [a_["ren"] for a_ in alts], "call": how}))
+                elif ref is not None and chosen[ref] not in cand:
+                    bad.append(("MSM.fit/mapping_-differs-from-trim_disconnected",
+                                {"got": got, "trim_disconnected_kept": alts[chosen[ref]]["kept"], "call": how}))
                 if built:
                     msm = "compared"
-                    D = _dense(m.tcounts_)
-                    if list(D.shape) != [exp["m"], exp["m"]] or [int(v) for v in D.ravel()] != exp["M"]:
-                        bad.append(("MSM.fit/tcounts_", {"got": D.tolist(), "expected": exp,
-                                                         "assignments": form, "max_n_states": max_n}))
+                    if cand:
+                        exp = alts[cand[0]]["ren"]
+                        D = _dense(m.tcounts_)
+                        if list(D.shape) != [exp["m"], exp["m"]] or [int(v) for v in D.ravel()] != exp["M"]:
+                            bad.append(("MSM.fit/tcounts_", {"got": D.tolist(), "expected": exp, "call": how}))
                 else:
                     msm += "/mapping-compared"
             elif not built:
                 msm += "/before-trim"
+            else:
+                bad.append(("MSM.fit/mapping_-missing", {"assignments": form, "max_n_states": max_n}))
     return {"bad": bad, "msm": msm}
 
 
@@ -246,6 +262,7 @@ def _consts(N, MaxC, thresholds, renumbers, containers, emit):
 
 
 def _bg_run(conn, kw):
+    os.setsid()                      # own process group: the parent can kill TLC with it
     try:
         conn.send(("ok", core.run_tlc(**kw)))
     except BaseException as ex:      # reported by the parent as a machinery failure
@@ -278,7 +295,18 @@ class _Background:
             if tag != "ok":
                 raise core.MachineryError("background TLC run %s failed: %s" % (label, r))
             out.append(ctx._account(r, kw["module"], kw["cfg"], label, True))
+        self.jobs = []
         return out
+
+    def kill(self):
+        import signal
+        for label, kw, p, conn in self.jobs:
+            try:
+                os.killpg(p.pid, signal.SIGKILL)
+            except OSError:
+                pass
+            p.join(5)
+        self.jobs = []
 
 
 def _draw(rng, N, MaxC, count, pzero):
@@ -292,6 +320,14 @@ def _draw(rng, N, MaxC, count, pzero):
 
 
 def run(ctx):
+    bg = _Background()
+    try:
+        _run(ctx, bg)
+    finally:
+        bg.kill()                    # no-op after a normal collect()
+
+
+def _run(ctx, bg):
     sc = SCOPES[ctx.tier]
     thresholds = sc["thresholds"]
     ctx.rule = ("one case per (count matrix, threshold) emitted by TLC, replayed for 4 containers x renumber "
@@ -308,7 +344,6 @@ def run(ctx):
     d = core.spec_tmp(SPEC_DIR)
 
     # ---- invariant runs (background)
-    bg = _Background()
     for i, e in enumerate(sc["exhaustive"]):
         cfg = core.write_cfg(os.path.join(d, "mc%d.cfg" % i),
                              constants=_consts(e["N"], e["MaxC"], thresholds, [True, False], e["containers"], False),
@@ -316,7 +351,7 @@ def run(ctx):
         bg.start("exhaustive N=%d entries 0..%d thr=%s containers=%s" % (e["N"], e["MaxC"], thresholds,
                                                                          ",".join(e["containers"])),
                  module="Trim", cfg=os.path.basename(cfg), cwd=d, workers=e["workers"],
-                 coverage=e["coverage"], timeout=3000, java_opts=GC)
+                 coverage=e["coverage"], timeout=3000, java_opts=GC_BIG if e["N"] >= 4 else GC)
     rng = random.Random(ctx.seed)
     sample_files = []
     for i, s in enumerate(sc["samples"]):
@@ -353,11 +388,12 @@ def run(ctx):
                              env={"C11_SAMPLES": path}, expected=cnt, rotate=False))
     expected = [j.pop("expected") for j in jobs]
     rotate = [j.pop("rotate") for j in jobs]
-    results = ctx.tlc_parallel(jobs, max_par=10)
+    results = ctx.tlc_parallel(jobs, max_par=6)
 
     stats = {"cases": 0, "ties": 0, "one_way_link": 0, "larger_component_loses": 0, "threshold_drops_counts": 0,
              "several_components": 0, "msm": {}}
     sparse = [t for t in ALL_CONTAINERS if t != "ndarray"]
+    totals = {}
     for j, want, rot, r in zip(jobs, expected, rotate, results):
         tags = [p for t, p in r.prints if t == "TAGS"]
         if len(tags) != 1 or set(tags[0]) != set(ALL_CONTAINERS):
@@ -381,10 +417,17 @@ def run(ctx):
             if out["msm"] != "skipped":
                 ctx.traces += 1
             for key_, detail in out["bad"]:
-                ctx.violation({"kind": "replay", "site": key_, "case": out["case"], "detail": detail,
-                               "how": "real trim_disconnected / MSM.fit vs Trim.tla emitted alternatives"},
-                              key=key_)
+                # a broken implementation fails on 10^5 cases: report the first few of each class
+                # in full and count the rest (every class still makes the check exit 1)
+                totals[key_] = totals.get(key_, 0) + 1
+                if totals[key_] <= MAX_REPORTS_PER_KEY:
+                    ctx.violation({"kind": "replay", "site": key_, "case": out["case"], "detail": detail,
+                                   "how": "real trim_disconnected / MSM.fit vs Trim.tla emitted alternatives"},
+                                  key=key_)
     ctx.notes["case_statistics"] = stats
+    if totals:
+        ctx.notes["mismatches_per_class"] = totals
+        print("C11 mismatching (case, call site) pairs per class: %s" % json.dumps(totals, sort_keys=True))
 
     # ---- collect invariant runs; vacuity: every action fired
     for r in bg.collect(ctx):
